@@ -264,15 +264,12 @@ func (f *function) evaluate() (data string, changed bool, err error) {
 		return "", false, err
 	}
 
-	var buf bytes.Buffer
-	b64 := base64.NewEncoder(base64.StdEncoding, &buf)
-	if err := pickle.NewEncoder(b64, newEnvPickler()).Encode(f.function); err != nil {
-		return "", false, err
-	}
-	b64.Close()
-
+	// Record the environment that the decision to run was based on, not the environment as
+	// the function left it: a function that changes a value it references (its own default
+	// list, say) would otherwise never match what a fresh load of the same text computes,
+	// and would be re-run by every build.
 	f.oldEnv, f.oldPickle = f.newEnv, f.newPickle
-	return buf.String(), true, nil
+	return base64.StdEncoding.EncodeToString(f.newPickle), true, nil
 }
 
 func (f *function) load() error {
